@@ -183,7 +183,7 @@ where
     let mut is_eol = false;
 
     loop {
-        let src = reader.fill_buf()?;
+        let src = fill_buf(reader)?;
 
         if is_eol || src.is_empty() || src[0] == DEFINITION_PREFIX {
             break;
@@ -210,7 +210,7 @@ fn is_last_sequence_line<R>(reader: &mut R) -> io::Result<bool>
 where
     R: BufRead,
 {
-    let src = reader.fill_buf()?;
+    let src = fill_buf(reader)?;
     Ok(src.is_empty() || src[0] == DEFINITION_PREFIX)
 }
 
@@ -260,6 +260,27 @@ impl From<IndexError> for io::Error {
             IndexError::Io(e) => e,
             _ => Self::new(io::ErrorKind::InvalidInput, error),
         }
+    }
+}
+
+// `BufRead::fill_buf` does not retry when the underlying reader is interrupted.
+fn fill_buf<R>(reader: &mut R) -> io::Result<&[u8]>
+where
+    R: BufRead,
+{
+    let len = loop {
+        match reader.fill_buf() {
+            Ok(buf) => break buf.len(),
+            Err(ref e) if e.kind() == io::ErrorKind::Interrupted => {}
+            Err(e) => return Err(e),
+        }
+    };
+
+    if len == 0 {
+        Ok(&[])
+    } else {
+        // The buffer is not empty: this does not read from the underlying reader.
+        reader.fill_buf()
     }
 }
 
